@@ -122,17 +122,21 @@ Proof.
       exact (proj1 (IHr (F DR k v h l :: p))).
 Qed.
 
+Lemma dn_mid a k b : dn (a ++ (k, None) :: b) (a ++ b).
+Proof. apply dn_app; [apply dn_refl|apply dn_drop, dn_refl]. Qed.
+
+Lemma splice_ia l r : isE l || isE r = true -> ia (if isE l then r else l) = ia l ++ ia r.
+Proof. destruct l; cbn [isE]; [reflexivity|]. destruct r; cbn [isE orb ia]; [now rewrite app_nil_r|discriminate]. Qed.
+
 Lemma rebalance_locked_dn p n : dn (ia (zip p n)) (ia (oz (rebalance_locked p n))).
 Proof.
   unfold rebalance_locked. destruct n as [|l k v h r]; [apply dn_refl|].
   destruct ((isE l || isE r) && isNone v) eqn:U.
   - rewrite fixh_parent_ia. apply dn_zip. apply andb_true_iff in U. destruct U as [U1 U2].
-    destruct v; [discriminate|]. destruct l as [|? ? ? ? ?]; cbn [isE ia app].
-    + apply dn_drop, dn_refl.
-    + destruct r; [|discriminate]. cbn [ia]. apply dn_app; [apply dn_refl|]. apply dn_keep. apply dn_drop, dn_nil.
+    destruct v; [discriminate|]. rewrite (splice_ia l r U1). cbn [ia]. apply dn_mid.
   - destruct (1 <? ht l - ht r); [rewrite (proj1 (rebal_ia _ _)); apply dn_refl|].
     destruct (ht l - ht r <? -1); [rewrite (proj2 (rebal_ia _ _)); apply dn_refl|].
-    destruct (negb (h =? 1 + Z.max (ht l) (ht r))); [rewrite fixh_parent_ia; apply dn_refl|apply dn_refl].
+    destruct (negb (h =? 1 + Z.max (ht l) (ht r))); [rewrite fixh_parent_ia, !ia_zip; cbn [ia]; apply dn_refl|apply dn_refl].
 Qed.
 
 Lemma fix_loop_dn fuel : forall p t T, fix_loop fuel p t = Some T -> dn (ia (zip p t)) (ia T).
@@ -155,3 +159,356 @@ Lemma run_out_dn fuel o T : run_out fuel o = Some T -> dn (ia (oz o)) (ia T).
 Proof.
   destruct o as [p t|p t]; cbn [run_out oz]; intros H; [inversion H; apply dn_refl|now apply (fix_loop_dn fuel)].
 Qed.
+
+(** ** operations: the traversal changes exactly like the sorted association list *)
+Lemma valued_app a b : valued (a ++ b) = valued a ++ valued b.
+Proof. induction a as [|[k [v|]] a IH]; cbn; congruence. Qed.
+
+Lemma valued_keys l x : In x (map fst (valued l)) -> In x (map fst l).
+Proof. induction l as [|[k [v|]] l IH]; cbn; tauto. Qed.
+
+Lemma valued_sub l : sub (map fst (valued l)) (map fst l).
+Proof. induction l as [|[k [v|]] l IH]; cbn; [apply sub_nil|apply sub_keep; auto|apply sub_skip; auto]. Qed.
+
+Definition lo (k : Z) (l : list (Z * option Z)) : Prop := forall x, In x (map fst l) -> x < k.
+Definition hi (k : Z) (l : list (Z * option Z)) : Prop := forall x, In x (map fst l) -> k < x.
+Definition slo (k : Z) (l : list (Z * Z)) : Prop := forall x, In x (map fst l) -> x < k.
+Definition shi (k : Z) (l : list (Z * Z)) : Prop := forall x, In x (map fst l) -> k < x.
+
+Lemma lo_valued k l : lo k l -> slo k (valued l).
+Proof. intros H x Hx. apply H. now apply valued_keys. Qed.
+Lemma hi_valued k l : hi k l -> shi k (valued l).
+Proof. intros H x Hx. apply H. now apply valued_keys. Qed.
+
+Lemma sl_put_app_r ow k v A B : slo k A -> sl_put ow k v (A ++ B) = A ++ sl_put ow k v B.
+Proof.
+  induction A as [|[a w] A IH]; intros H; cbn [app sl_put]; [reflexivity|].
+  assert (a < k) by (apply H; now left). destruct (Z.ltb_spec k a); [lia|]. destruct (Z.eqb_spec k a); [lia|].
+  f_equal. apply IH. intros x Hx. apply H. now right.
+Qed.
+Lemma sl_put_app_l ow k v A B : shi k B -> sl_put ow k v (A ++ B) = sl_put ow k v A ++ B.
+Proof.
+  intros H. induction A as [|[a w] A IH]; cbn [app sl_put].
+  - destruct B as [|[b w] B]; [reflexivity|]. cbn [sl_put]. assert (k < b) by (apply H; now left).
+    destruct (Z.ltb_spec k b); [reflexivity|lia].
+  - destruct (k <? a); [reflexivity|]. destruct (k =? a); [destruct ow; reflexivity|]. cbn [app]. now rewrite IH.
+Qed.
+Lemma sl_upd_none k v B : shi k B -> sl_upd k v B = B.
+Proof.
+  induction B as [|[b w] B IH]; intros H; cbn [sl_upd]; [reflexivity|]. assert (k < b) by (apply H; now left).
+  destruct (Z.eqb_spec k b); [lia|]. f_equal. apply IH. intros x Hx. apply H. now right.
+Qed.
+Lemma sl_upd_app_r k v A B : slo k A -> sl_upd k v (A ++ B) = A ++ sl_upd k v B.
+Proof.
+  induction A as [|[a w] A IH]; intros H; cbn [app sl_upd]; [reflexivity|].
+  assert (a < k) by (apply H; now left). destruct (Z.eqb_spec k a); [lia|]. f_equal. apply IH. intros x Hx. apply H. now right.
+Qed.
+Lemma sl_upd_app_l k v A B : shi k B -> sl_upd k v (A ++ B) = sl_upd k v A ++ B.
+Proof.
+  intros H. induction A as [|[a w] A IH]; cbn [app sl_upd]; [now apply sl_upd_none|].
+  destruct (k =? a); [reflexivity|]. cbn [app]. now rewrite IH.
+Qed.
+Lemma sl_del_none k B : shi k B -> sl_del k B = B.
+Proof.
+  induction B as [|[b w] B IH]; intros H; cbn [sl_del]; [reflexivity|]. assert (k < b) by (apply H; now left).
+  destruct (Z.eqb_spec k b); [lia|]. f_equal. apply IH. intros x Hx. apply H. now right.
+Qed.
+Lemma sl_del_app_r k A B : slo k A -> sl_del k (A ++ B) = A ++ sl_del k B.
+Proof.
+  induction A as [|[a w] A IH]; intros H; cbn [app sl_del]; [reflexivity|].
+  assert (a < k) by (apply H; now left). destruct (Z.eqb_spec k a); [lia|]. f_equal. apply IH. intros x Hx. apply H. now right.
+Qed.
+Lemma sl_del_app_l k A B : shi k B -> sl_del k (A ++ B) = sl_del k A ++ B.
+Proof.
+  intros H. induction A as [|[a w] A IH]; cbn [app sl_del]; [now apply sl_del_none|].
+  destruct (k =? a); [reflexivity|]. cbn [app]. now rewrite IH.
+Qed.
+
+(** a key-local operation on sorted association lists *)
+Definition keylocal (k : Z) (op : list (Z * Z) -> list (Z * Z)) : Prop :=
+  (forall A B, slo k A -> op (A ++ B) = A ++ op B) /\ (forall A B, shi k B -> op (A ++ B) = op A ++ B).
+
+Lemma keylocal_put ow k v : keylocal k (sl_put ow k v).
+Proof. split; intros; [now apply sl_put_app_r|now apply sl_put_app_l]. Qed.
+Lemma keylocal_upd k v : keylocal k (sl_upd k v).
+Proof. split; intros; [now apply sl_upd_app_r|now apply sl_upd_app_l]. Qed.
+Lemma keylocal_del k : keylocal k (sl_del k).
+Proof. split; intros; [now apply sl_del_app_r|now apply sl_del_app_l]. Qed.
+Lemma keylocal_id k : keylocal k (fun l => l).
+Proof. split; intros; reflexivity. Qed.
+
+Lemma ctx_op k op A B Y Y' : keylocal k op -> lo k A -> hi k B -> op (valued Y) = valued Y' ->
+  op (valued (A ++ Y ++ B)) = valued (A ++ Y' ++ B).
+Proof.
+  intros [K1 K2] HA HB HY. rewrite !valued_app. rewrite K1 by now apply lo_valued. rewrite K2 by now apply hi_valued.
+  now rewrite HY.
+Qed.
+
+(** the operation chosen by the flags of do_update *)
+Definition upd_op (ai au : bool) (k v : Z) : list (Z * Z) -> list (Z * Z) :=
+  if ai then (if au then sl_put true k v else sl_put false k v) else (if au then sl_upd k v else fun l => l).
+
+Lemma keylocal_upd_op ai au k v : keylocal k (upd_op ai au k v).
+Proof. unfold upd_op. destruct ai, au; auto using keylocal_put, keylocal_upd, keylocal_id. Qed.
+
+Lemma upd_op_entry ai au k v v' :
+  upd_op ai au k v (valued [(k, v')]) =
+  valued [(k, match v' with Some x => if au then Some v else Some x | None => if ai then Some v else None end)].
+Proof. unfold upd_op. destruct ai, au, v'; cbn; rewrite ?Z.eqb_refl, ?Z.ltb_irrefl; reflexivity. Qed.
+
+Lemma upd_op_nil ai au k v : upd_op ai au k v [] = if ai then [(k, v)] else [].
+Proof. unfold upd_op. destruct ai, au; reflexivity. Qed.
+
+Lemma inc_insert_mid A B k : inc (A ++ B) -> (forall a, In a A -> a < k) -> (forall b, In b B -> k < b) -> inc (A ++ k :: B).
+Proof.
+  induction A as [|a A IH]; cbn [app inc]; intros S HA HB.
+  - split; [apply Forall_forall; exact HB|exact S].
+  - destruct S as [F S]. split; [|apply IH; [exact S|intros a0 Ha0; apply HA; now right|exact HB]].
+    rewrite Forall_forall in *. intros y Hy.
+    apply in_app_or in Hy. destruct Hy as [Hy|[<-|Hy]]; [apply F, in_or_app; now left|apply HA; now left|apply F, in_or_app; now right].
+Qed.
+
+Definition kl (l : list (Z * option Z)) : list Z := map fst l.
+
+Lemma inc_mid_bounds A k B : inc (A ++ k :: B) -> (forall a, In a A -> a < k) /\ (forall b, In b B -> k < b).
+Proof.
+  intros S. apply inc_app_inv in S. destruct S as (_ & S2 & S3). split.
+  - intros a Ha. apply S3; [exact Ha|now left].
+  - cbn in S2. destruct S2 as [F _]. rewrite Forall_forall in F. exact F.
+Qed.
+
+Definition Ctx (k : Z) (p : list frame) : Prop := lo k (pre p) /\ hi k (post p).
+
+Lemma kl_app a b : kl (a ++ b) = kl a ++ kl b.
+Proof. apply map_app. Qed.
+
+(** local shape of the in-order list around a node *)
+Lemma whole_node p l k v h r : ia (zip p (N l k v h r)) = (pre p ++ ia l) ++ [(k, v)] ++ (ia r ++ post p).
+Proof. rewrite ia_zip. cbn [ia app]. now rewrite <- !app_assoc. Qed.
+
+Lemma node_bounds p l k v h r : inc (kl (ia (zip p (N l k v h r)))) -> lo k (pre p ++ ia l) /\ hi k (ia r ++ post p).
+Proof.
+  rewrite whole_node. unfold kl. rewrite !map_app. cbn [map fst app]. intros S.
+  destruct (inc_mid_bounds _ _ _ S) as [H1 H2]. split; intros x Hx; [apply H1|apply H2]; rewrite <- ?map_app; exact Hx.
+Qed.
+
+Lemma lo_app k A B : lo k (A ++ B) <-> lo k A /\ lo k B.
+Proof.
+  unfold lo. split.
+  - intros H. split; intros x Hx; apply H; rewrite map_app; apply in_or_app; auto.
+  - intros [H1 H2] x Hx. rewrite map_app in Hx. apply in_app_or in Hx. destruct Hx; auto.
+Qed.
+Lemma hi_app k A B : hi k (A ++ B) <-> hi k A /\ hi k B.
+Proof.
+  unfold hi. split.
+  - intros H. split; intros x Hx; apply H; rewrite map_app; apply in_or_app; auto.
+  - intros [H1 H2] x Hx. rewrite map_app in Hx. apply in_app_or in Hx. destruct Hx; auto.
+Qed.
+Lemma lo_cons k a x A : lo k ((a, x) :: A) <-> a < k /\ lo k A.
+Proof.
+  unfold lo. cbn [map fst In]. split.
+  - intros H. split; [apply H; now left|intros y Hy; apply H; now right].
+  - intros [H1 H2] y [<-|Hy]; auto.
+Qed.
+Lemma hi_cons k a x A : hi k ((a, x) :: A) <-> k < a /\ hi k A.
+Proof.
+  unfold hi. cbn [map fst In]. split.
+  - intros H. split; [apply H; now left|intros y Hy; apply H; now right].
+  - intros [H1 H2] y [<-|Hy]; auto.
+Qed.
+Lemma lo_nil k : lo k [].
+Proof. intros x []. Qed.
+Lemma hi_nil k : hi k [].
+Proof. intros x []. Qed.
+Lemma lo_weaken k k' A : lo k' A -> k' < k -> lo k A.
+Proof. intros H L x Hx. specialize (H x Hx). lia. Qed.
+Lemma hi_weaken k k' A : hi k' A -> k < k' -> hi k A.
+Proof. intros H L x Hx. specialize (H x Hx). lia. Qed.
+
+Lemma attach_spec A B T k v au :
+  inc (kl (A ++ B)) -> lo k A -> hi k B -> dn (A ++ [(k, Some v)] ++ B) (ia T) ->
+  inc (kl (ia T)) /\ valued (ia T) = upd_op true au k v (valued (A ++ [] ++ B)).
+Proof.
+  intros S HA HB D. split.
+  - eapply inc_sub; [apply dn_sub; exact D|]. unfold kl in *. rewrite !map_app in *. cbn [map fst app].
+    apply inc_insert_mid; [exact S|exact HA|exact HB].
+  - rewrite <- (dn_valued _ _ D). symmetry. apply (ctx_op k _ A B [] [(k, Some v)] (keylocal_upd_op true au k v) HA HB).
+    cbn [valued]. now rewrite upd_op_nil.
+Qed.
+
+Lemma noattach_spec A B k v au : lo k A -> hi k B ->
+  valued (A ++ [] ++ B) = upd_op false au k v (valued (A ++ [] ++ B)).
+Proof.
+  intros HA HB. symmetry. apply (ctx_op k _ A B [] [] (keylocal_upd_op false au k v) HA HB). cbn [valued]. now rewrite upd_op_nil.
+Qed.
+
+Lemma upd_spec fuel ai au k v : forall t p T,
+  inc (kl (ia (zip p t))) -> Ctx k p -> upd fuel ai au k v p t = Some T ->
+  inc (kl (ia T)) /\ valued (ia T) = upd_op ai au k v (valued (ia (zip p t))).
+Proof.
+  induction t as [|l IHl k' v' h r IHr]; intros p T S [C1 C2] H.
+  - (* empty position *)
+    cbn [upd] in H. rewrite ia_zip in *. cbn [ia] in *. destruct ai; injection H as <-.
+    + apply attach_spec; auto. rewrite ia_zip. cbn [ia]. apply dn_refl.
+    + split; [rewrite ia_zip; exact S|]. rewrite ia_zip. cbn [ia]. now apply noattach_spec.
+  - pose proof (node_bounds _ _ _ _ _ _ S) as [B1 B2].
+    apply lo_app in B1. destruct B1 as [B1a B1b]. apply hi_app in B2. destruct B2 as [B2a B2b].
+    cbn [upd] in H. destruct (Z.eqb_spec k k') as [<-|NE].
+    + (* found: try_update_node *)
+      injection H as <-.
+      assert (LO : lo k (pre p ++ ia l)) by (apply lo_app; split; assumption).
+      assert (HI : hi k (ia r ++ post p)) by (apply hi_app; split; assumption).
+      destruct v' as [x|]; [destruct au|destruct ai]; rewrite !whole_node in *;
+        (split; [unfold kl in *; rewrite !map_app in *; exact S|]); symmetry;
+        apply (ctx_op k _ _ _ _ _ (keylocal_upd_op _ _ k v) LO HI); exact (upd_op_entry _ _ k v _).
+    + destruct (Z.ltb_spec k k') as [LT|GE].
+      * assert (HB : hi k ((k', v') :: ia r ++ post p)).
+        { apply hi_cons. split; [exact LT|]. apply hi_app. split; eapply hi_weaken; eauto. }
+        destruct l as [|ll lk lv lh lr].
+        -- rewrite ia_zip in S. cbn [ia app] in S.
+           destruct ai.
+           ++ pose proof (run_out_dn _ _ _ H) as D. rewrite fix_height_locked_ia, ia_zip in D. cbn [ia app] in D.
+              rewrite ia_zip. cbn [ia app].
+              apply (attach_spec (pre p) ((k', v') :: ia r ++ post p) T k v au S C1 HB D).
+           ++ injection H as <-. rewrite ia_zip. cbn [ia app]. split; [exact S|].
+              apply (noattach_spec (pre p) ((k', v') :: ia r ++ post p) k v au C1 HB).
+        -- apply (IHl (F DL k' v' h r :: p) T); [exact S| |exact H]. split; cbn [pre post fpre fpost fd fk fv fs].
+           ++ now rewrite app_nil_r.
+           ++ exact HB.
+      * assert (GT : k' < k) by lia.
+        assert (HA : lo k (pre p ++ ia l ++ [(k', v')])).
+        { apply lo_app. split; [exact C1|]. apply lo_app. split; [eapply lo_weaken; eauto|]. apply lo_cons. split; [exact GT|apply lo_nil]. }
+        destruct r as [|rl rk rv rh rr].
+        -- rewrite ia_zip in S. cbn [ia app] in S.
+           assert (R1 : forall Y, pre p ++ (ia l ++ (k', v') :: Y) ++ post p = (pre p ++ ia l ++ [(k', v')]) ++ Y ++ post p)
+             by (intros Y; rewrite <- !app_assoc; reflexivity).
+           rewrite (R1 []) in S. cbn [app] in S.
+           destruct ai.
+           ++ pose proof (run_out_dn _ _ _ H) as D. rewrite fix_height_locked_ia, ia_zip in D. cbn [ia app] in D.
+              rewrite (R1 [(k, Some v)]) in D. rewrite ia_zip. cbn [ia app]. rewrite (R1 []).
+              apply (attach_spec _ (post p) T k v au S HA C2 D).
+           ++ injection H as <-. rewrite ia_zip. cbn [ia app]. rewrite (R1 []). split; [exact S|].
+              apply (noattach_spec _ (post p) k v au HA C2).
+        -- apply (IHr (F DR k' v' h l :: p) T); [exact S| |exact H]. split; cbn [pre post fpre fpost fd fk fv fs].
+           ++ exact HA.
+           ++ exact C2.
+Qed.
+
+Lemma sub_app_skip {A} (a b : list A) x : sub (a ++ b) (a ++ [x] ++ b).
+Proof. induction a as [|y a IH]; cbn [app]; [apply sub_skip, sub_refl|apply sub_keep, IH]. Qed.
+
+Lemma del_entry k x : sl_del k (valued [(k, x)]) = [].
+Proof. destruct x; cbn; [now rewrite Z.eqb_refl|reflexivity]. Qed.
+
+Lemma rem_spec fuel k : forall t p T,
+  inc (kl (ia (zip p t))) -> Ctx k p -> rem fuel k p t = Some T ->
+  inc (kl (ia T)) /\ valued (ia T) = sl_del k (valued (ia (zip p t))).
+Proof.
+  induction t as [|l IHl k' v' h r IHr]; intros p T S [C1 C2] H.
+  - cbn [rem] in H. injection H as <-. split; [exact S|]. rewrite ia_zip. cbn [ia]. symmetry.
+    apply (ctx_op k _ (pre p) (post p) [] [] (keylocal_del k) C1 C2). reflexivity.
+  - pose proof (node_bounds _ _ _ _ _ _ S) as [B1 B2].
+    apply lo_app in B1. destruct B1 as [B1a B1b]. apply hi_app in B2. destruct B2 as [B2a B2b].
+    cbn [rem] in H. destruct (Z.eqb_spec k k') as [<-|NE].
+    + (* found: try_remove_node *)
+      assert (LO : lo k (pre p ++ ia l)) by (apply lo_app; split; assumption).
+      assert (HI : hi k (ia r ++ post p)) by (apply hi_app; split; assumption).
+      assert (W0 : forall Y, (pre p ++ ia l) ++ Y ++ ia r ++ post p = pre p ++ (ia l ++ Y ++ ia r) ++ post p)
+        by (intros Y; rewrite <- !app_assoc; reflexivity).
+      unfold remove_node in H. destruct v' as [x|].
+      * destruct (isE l || isE r) eqn:U.
+        -- pose proof (run_out_dn _ _ _ H) as D. rewrite fixh_parent_ia, ia_zip, (splice_ia l r U) in D.
+           rewrite whole_node in *. split.
+           ++ eapply inc_sub; [apply dn_sub; exact D|].
+              replace (pre p ++ (ia l ++ ia r) ++ post p) with ((pre p ++ ia l) ++ ia r ++ post p) by (rewrite <- !app_assoc; reflexivity).
+              eapply inc_sub; [|exact S]. unfold kl. apply sub_map. apply sub_app_skip.
+           ++ rewrite <- (dn_valued _ _ D). symmetry.
+              replace (pre p ++ (ia l ++ ia r) ++ post p) with ((pre p ++ ia l) ++ [] ++ ia r ++ post p) by (rewrite <- !app_assoc; reflexivity).
+              apply (ctx_op k _ _ _ _ _ (keylocal_del k) LO HI). apply del_entry.
+        -- injection H as <-. rewrite !whole_node in *. split.
+           ++ unfold kl in *. rewrite !map_app in *. exact S.
+           ++ symmetry. apply (ctx_op k _ _ _ [(k, Some x)] [(k, None)] (keylocal_del k) LO HI). apply del_entry.
+      * injection H as <-. rewrite !whole_node in *. split; [exact S|]. symmetry.
+        apply (ctx_op k _ _ _ [(k, None)] [(k, None)] (keylocal_del k) LO HI). reflexivity.
+    + destruct (Z.ltb_spec k k') as [LT|GE].
+      * apply (IHl (F DL k' v' h r :: p) T); [exact S| |exact H]. split; cbn [pre post fpre fpost fd fk fv fs].
+        -- now rewrite app_nil_r.
+        -- apply hi_cons. split; [exact LT|]. apply hi_app. split; eapply hi_weaken; eauto.
+      * assert (GT : k' < k) by lia.
+        apply (IHr (F DR k' v' h l :: p) T); [exact S| |exact H]. split; cbn [pre post fpre fpost fd fk fv fs].
+        -- apply lo_app. split; [exact C1|]. apply lo_app. split; [eapply lo_weaken; eauto|]. apply lo_cons. split; [exact GT|apply lo_nil].
+        -- exact C2.
+Qed.
+
+Lemma find_min_head t : forall k, find_min t = Some k -> exists x rest, valued (ia t) = (k, x) :: rest.
+Proof.
+  induction t as [|l IHl k' v' h r IHr]; intros k H; [discriminate|]. cbn [find_min] in H. cbn [ia]. rewrite valued_app.
+  destruct l as [|ll lk lv lh lr].
+  - cbn [ia valued app]. destruct v' as [x|]; [injection H as <-; eauto|]. cbn [valued]. now apply IHr.
+  - destruct (IHl _ H) as (x & rest & ->). cbn [app]. eauto.
+Qed.
+
+Lemma find_max_last t : forall k, find_max t = Some k -> exists x rest, valued (ia t) = rest ++ [(k, x)].
+Proof.
+  induction t as [|l IHl k' v' h r IHr]; intros k H; [discriminate|]. cbn [find_max] in H. cbn [ia]. rewrite valued_app.
+  destruct r as [|rl rk rv rh rr].
+  - cbn [ia]. destruct v' as [x|]; cbn [valued]; [injection H as <-; eauto|]. rewrite app_nil_r. now apply IHl.
+  - destruct (IHr _ H) as (x & rest & E). destruct v' as [y|]; cbn [valued]; rewrite E.
+    + exists x, (valued (ia l) ++ (k', y) :: rest). now rewrite <- app_assoc.
+    + exists x, (valued (ia l) ++ rest). now rewrite <- app_assoc.
+Qed.
+
+Lemma bst_traverse_sorted t : bst t -> ksorted (a_traverse t).
+Proof. unfold bst, keys, ksorted, a_traverse. intros S. eapply inc_sub; [apply valued_sub|exact S]. Qed.
+
+Lemma Ctx_nil k : Ctx k [].
+Proof. split; intros x []. Qed.
+
+(** one operation: search-tree order is kept and the client-visible traversal changes like the sorted list *)
+Theorem a_step_spec t o T : bst t -> a_step t o = Some T -> bst T /\ a_traverse T = sl_step (a_traverse t) o.
+Proof.
+  intros B H. unfold bst, keys, a_traverse in *. fold (kl (ia t)) in B. fold (kl (ia T)).
+  destruct o as [k v|k v|k v|k| |]; cbn [a_step sl_step] in *.
+  - apply (upd_spec _ true false k v t [] T B (Ctx_nil k) H).
+  - apply (upd_spec _ true true k v t [] T B (Ctx_nil k) H).
+  - apply (upd_spec _ false true k v t [] T B (Ctx_nil k) H).
+  - apply (rem_spec _ k t [] T B (Ctx_nil k) H).
+  - destruct (find_min t) as [k|] eqn:M.
+    + destruct (find_min_head _ _ M) as (x & rest & E).
+      destruct (rem_spec _ k t [] T B (Ctx_nil k) H) as [S V]. split; [exact S|]. rewrite V. cbn [zip]. rewrite E. cbn [sl_del tl].
+      now rewrite Z.eqb_refl.
+    + destruct t; [|discriminate]. injection H as <-. split; [exact B|reflexivity].
+  - destruct (find_max t) as [k|] eqn:M.
+    + destruct (find_max_last _ _ M) as (x & rest & E).
+      destruct (rem_spec _ k t [] T B (Ctx_nil k) H) as [S V]. split; [exact S|]. rewrite V. cbn [zip]. rewrite E.
+      rewrite removelast_last. apply sl_del_last. rewrite <- E. apply (bst_traverse_sorted t). exact B.
+    + destruct t; [|discriminate]. injection H as <-. split; [exact B|reflexivity].
+Qed.
+
+(** every sequence of operations that runs to completion (no fuel exhaustion, no extract_min/max livelock) *)
+Theorem a_run_spec os : forall t T, bst t -> a_run os t = Some T ->
+  bst T /\ a_traverse T = fold_left sl_step os (a_traverse t).
+Proof.
+  induction os as [|o os IH]; intros t T B H; cbn [a_run fold_left] in *; [injection H as <-; auto|].
+  destruct (a_step t o) as [t'|] eqn:E; [|discriminate].
+  destruct (a_step_spec _ _ _ B E) as [B' V]. rewrite <- V. now apply IH.
+Qed.
+
+(** ** refutations: AVL balance and exact stored heights do NOT hold at quiescent points of sequential histories.
+    Witness: 27 operations (found by searching the extracted model; replayed on the real BronsonAVLTreeMap, which
+    produces the identical tree, corpus/C18/bronson_seq_stale_stored_height.json). *)
+Definition witness_ops : list sop :=
+  [ExtMin; ExtMax; Ups 5 43; ExtMin; Ins 7 14; Ins 9 6; Ins 5 15; Del 2; Del 3; Ups 1 44; Upd 1 87; Ups 5 22; Ups 3 61;
+   ExtMin; Ups 1 61; Ups 8 85; Del 6; Del 5; Del 8; ExtMin; Ups 2 14; Ups 4 81; Del 3; Upd 9 45; Ins 9 43; Ins 2 10; Ups 5 73].
+
+Definition witness_tree : tree :=
+  N (N (N E 2 (Some 14) 1 E) 3 None 3 (N E 4 (Some 81) 2 (N E 5 (Some 73) 1 E))) 7 (Some 14) 3 (N E 9 (Some 45) 1 E).
+
+Lemma witness_run : a_run witness_ops E = Some witness_tree.
+Proof. vm_compute. reflexivity. Qed.
+
+Theorem avl_balance_refuted : exists os T, a_run os E = Some T /\ balanced T = false.
+Proof. exists witness_ops, witness_tree. split; [exact witness_run|vm_compute; reflexivity]. Qed.
+
+Theorem stored_heights_refuted : exists os T, a_run os E = Some T /\ heights_exact T = false.
+Proof. exists witness_ops, witness_tree. split; [exact witness_run|vm_compute; reflexivity]. Qed.
